@@ -9,6 +9,7 @@ COMMON = [
 ]
 
 PROPS = {
+    "C02": dict(level="exploration", shards=(4, 16), timeout=(900, 3000), assumptions=COMMON, fuzz=[("FuzzC02", 240)]),
     "C01": dict(level="exploration", shards=(4, 16), timeout=(600, 3000), assumptions=COMMON),
     "C06": dict(level="exploration", shards=(2, 16), timeout=(300, 1500), assumptions=COMMON),
     "C15": dict(level="exploration", shards=(2, 16), timeout=(300, 1500), assumptions=COMMON, fuzz=[("FuzzC15", 60)]),
@@ -21,6 +22,11 @@ NOT_APPLICABLE = {}
 
 # Texts for MANIFEST.json
 TEXT = {
+    "C02": dict(
+        technique="grammar-based property test (rapid) with a reference element list, metamorphic read-segmentation relation, truncation/corruption fault injection, child-process deep-nesting probes, native go fuzzing",
+        level_text="Exploration: streams are generated from a grammar as values (header, 0-8 top-level elements of every kind NextPacket dispatches, child forests with unknown extensions, CDATA, comments and same-name descendants), serialised by an independent serialiser that records element end offsets, and read through generated segmentations; the k-th NextPacket result must have the kind and addressing of the k-th element, unknown elements must error, segmentation must not change the packets, truncation must return exactly the complete prefix then an error, corrupted bytes must end in an error without panic or hang. Deep nesting (to 60000 levels quick, 450000 thorough) is probed in child processes. 30k streams quick, 3M + 4 min of native fuzzing thorough.",
+        level_note="Totality is searched, not proved. The deep-nesting probes use a reduced goroutine stack limit (64 MB) as an amplifier in the quick tier; the thorough tier also uses the default stack. Two known findings (unbounded recursion through <forwarded/> chains) are listed in KNOWN_FINDINGS.txt.",
+    ),
     "C01": dict(
         technique="property-based round-trip and metamorphic (text-substitution) test with a reflection-guided generator over the library's stanza types (rapid)",
         level_text="Exploration: values of Message, Presence, IQ (every registered payload type, generic Node trees), Err, the stream-management / SASL / handshake elements are generated field by field through reflection over the library's own types (strings over all XML-legal code points), serialised, parsed back both with xml.Unmarshal and with stanza.NextPacket on a stream, and compared field by field; the re-serialised bytes must be identical; the element/attribute skeleton must equal that of the same value with every text replaced by 'x' (no injection); the output must be one well-formed element. A completeness probe fails the run if the repository registers an extension type the generator does not know. ~80k values quick, ~4M thorough.",
